@@ -4,26 +4,26 @@ evidence/*.json (axioms per theorem, quick-tier cases and wall time) and the sta
 import glob, json, os, re
 V = os.path.dirname(os.path.dirname(os.path.abspath(__file__)))
 TIE = {
- "C01": ("T (GenNetwork: link/route numbering; C10/C04/C03 units) + V on real outputs + C (simulator vs checker)", "full for the models (end-to-end composition theorem); real executions, incl. the C SA kernel, certified per instance by check_delivery in Coq"),
- "C02": ("C (exact, incl. SA step replay) + V on real outputs", "full for the sequential family (Hilbert curve for all sizes), rand; SA Python kernel invariant; C kernel outputs validated only; float schedule not modelled"),
- "C03": ("T (C11 geometry units) + C (exact trees) + V on real outputs", "full (route_valid for all inputs; A* completeness)"),
- "C04": ("T (intersect, generality, merge bits) + C (exact) + V on real outputs", "full"),
- "C05": ("T (align, slices_overlap) + C (exact)", "full"),
- "C06": ("T (constants) + C (exact traces on schedules, clock model)", "full under Causal+Fresh; refuted without Fresh (known finding)"),
- "C07": ("T (chunk arithmetic, receive length, dtype table, struct offsets) + C + trace validator", "full (faults enter through C06)"),
- "C08": ("C (histories) + V on extracted layouts", "full safety; completeness under exclusive_children, refuted without (2 known findings)"),
- "C09": ("T (packet fields, nn id, block count, loop tests) + C + trace validator", "full under two guards, both proved necessary (2 known findings)"),
- "C10": ("T (command args, record layout, decode) + C (tables; simulated router)", "full"),
- "C11": ("T (length kernels, link tables, spiral tail of shortest_torus_path; digests of the hand-modelled functions) + C (scripted random, forced draws, numbers beyond 2^53)", "full"),
- "C12": ("T (get_region_for_chip, tree bit expressions; fail-closed on new state) + C (exact lists, histories, reuse)", "full"),
- "C13": ("C (histories, recording controller)", "full; SEEK_END sign refuted (known finding)"),
- "C14": ("T (bit-field extraction, table walk, version/status/IOBUF expressions, struct tables) + C (wire-level simulator)", "full (replies per documented layouts)"),
- "C15": ("T (format strings, masks, shifts, guards by ast) + C (exact bytes both ways)", "full"),
- "C16": ("C (bit exact, Flocq model)", "partial by nature: numpy modelled from observation; round trip refuted beyond 2^53 (known finding)"),
+ "C01": ("T (GenNetwork: link/route numbering; GenPipeline: the wrappers' stage composition; C10/C04/C03 units) + V on real outputs + C (simulator vs checker)", "full for the models (end-to-end composition theorem); real executions, incl. the C SA kernel, certified per instance by check_delivery in Coq, every matched key followed"),
+ "C02": ("T (GenPlaceShape: Machine.__contains__ translated, Machine method inventory, forwarding of bf/hilbert/rcm.place) + C (exact, incl. SA step replay) + V on real outputs (check_placement_fast on the large cases)", "full for the sequential family (Hilbert curve for all sizes) and its entry points, rand; SA Python kernel invariant; C kernel outputs validated only; float schedule not modelled"),
+ "C03": ("T (C11 geometry units; GenRouteShape: route()'s per-net loop, Machine) + C (exact trees; multi-net calls, Machine-reuse histories) + V on real outputs (check_tree, long routes included)", "full (route_valid for all inputs; nets routed independently; A* completeness)"),
+ "C04": ("T (intersect, generality, merge bits; GenTableFront: front ends, method list, entry constructor) + C (exact) + V on real outputs", "full; guards proved necessary by refutations"),
+ "C05": ("T (align, slices_overlap; GenWrapper: wrapper()'s constraint assembly) + C (exact; wrapper(), place_and_route_wrapper(), __setitem__ histories)", "full"),
+ "C06": ("T (constants; GenSCPShape: statements of send_scp_burst / send_scp / seqs) + C (exact traces on schedules, clock model, datagram identity)", "full under Causal+Fresh; refuted without Fresh (known finding)"),
+ "C07": ("T (chunk arithmetic, receive length, dtype table, struct offsets, struct-table shape) + C + trace validator", "full (struct tables as controller state replaced by boot; bursts composed with C06's model)"),
+ "C08": ("T (GenBitField: scan bound and range test; GenBitFieldShape: 21 methods, what is returned by reference) + C (histories) + V on extracted layouts", "full safety; completeness under exclusive_children, refuted without (2 known findings)"),
+ "C09": ("T (packet fields, nn id, block count, loop tests; GenLoadShape: load_application / flood_fill_aplx / error class) + C + trace validator", "full under two guards, both proved necessary (2 known findings); error content modelled"),
+ "C10": ("T (command args, record layout, decode; GenTablesWrapper: build_routing_tables) + C (tables; simulated router; programs of with/try blocks)", "full"),
+ "C11": ("T (length kernels, link tables, arithmetic of the loop-modelled functions translated inside matched skeletons) + C (scripted random, forced draws, numbers beyond 2^53, containers, numpy)", "full"),
+ "C12": ("T (get_region_for_chip, tree bit expressions; GenRegionsFill: flood_fill_aplx packets; fail-closed on new state) + C (exact lists, histories, tree sessions, packets sent)", "full"),
+ "C13": ("T (GenMemIO: cursor arithmetic of read/write/seek/slicing translated by py2v, surrounding statements matched) + C (histories, recording controller, real sdram_alloc_as_filelike)", "full; SEEK_END sign refuted (known finding)"),
+ "C14": ("T (bit-field extraction, table walk, version/status/IOBUF expressions, struct tables, struct look-up functions matched) + C (wire-level simulator; several controllers, moved layouts)", "full for any well-formed struct layout (replies per documented layouts)"),
+ "C15": ("T (format strings, masks, shifts, guards, int() coercions by ast; no module state) + C (exact bytes both ways; object and buffer histories run in the model)", "full"),
+ "C16": ("T (GenFixFloat: all eight function bodies of type_casts.py re-extracted into a small syntax and proved equal to the model) + C (bit exact, Flocq model)", "partial by nature: numpy modelled from observation; round trip refuted beyond 2^53 (known finding)"),
  "C17": ("T (shared-state inventory by ast) + differential history / family / fresh-interpreter runs", "partial by nature: inventoried carriers + differential runs"),
- "C18": ("T (signatures by ast and introspection; eth table; local_eth kernel) + C (whole traces)", "full on the fake-machine path of every method"),
- "C19": ("T (tables dumped, kernels translated) + C (whole machines)", "full; int(sqrt) proved over Flocq doubles"),
- "C20": ("T (constants, formats, live sv struct, presets) + C (exact datagrams)", "full"),
+ "C18": ("T (signatures by ast and introspection; eth table; local_eth kernel; GenContextShape: 22 functions of contexts.py and the controllers) + C (whole traces; discovery states)", "full on the fake-machine path of every method"),
+ "C19": ("T (tables dumped, kernels translated, narrow-dtype intermediates extracted, digests of the hand-modelled functions) + C (whole machines)", "full; int(sqrt) proved over Flocq doubles"),
+ "C20": ("T (constants, formats, live sv struct, presets; GenBootCtrl: MachineController.boot / __init__, rig-boot flag table) + C (exact datagrams; boot(), controller.boot, rig-boot)", "full"),
 }
 tot_t = tot_e = 0
 rows = []
